@@ -58,6 +58,10 @@ def gen(rng, tier):
             # pandas' nullable integer dtype (pd.NA) is a missing value like any other
             if c["name"] in ("z", "n_trials") and rng.random() < 0.35:
                 c["type"] = "nint"
+        if rng.random() < 0.35:
+            # an index with repeated / unordered labels: rows are dropped by POSITION, never by label
+            fr["index"] = rng.choice([[j % 3 for j in range(nrows)], [f"s{j // 2}" for j in range(nrows)],
+                                      [(j * 7 + 3) % nrows if nrows % 7 else (j * 5 + 3) % nrows for j in range(nrows)]])
         cases.append({"formula": _formula(rng, na == "pass"), "frame": fr, "na": na, "missing": missing, "kind": na})
     return cases
 
